@@ -428,9 +428,14 @@ def dumpJson (m : Mgr) (roots : Roots) : Except Err JsonFile :=
 def dmpAssertConsistent : M Unit := fun m =>
   let t := m.tbl
   if m.roots.any (fun r => !m.mem r) then (.error .assertion, m) else
-  -- `succ_keys == pred_values`, `pred_keys == succ_values`, `len` equal
+  -- `succ_keys == pred_values`, `pred_keys == succ_values` (set comparisons), and later
+  -- `_pred[(i, v, w)] == u`: every node has its entry, every entry is the triple of its node
+  -- (which also gives `len(set(succ_keys)) == len(set(succ_values))`)
   if !(t.succ.toList.all fun (u, n) => m.pred[n.key]? == some u) then (.error .assertion, m) else
-  if m.pred.size ≠ t.succ.size then (.error .assertion, m) else
+  if !(m.pred.toList.all fun (k, u) =>
+      match t.succ[u]? with
+      | some n => n.key == k
+      | none => false) then (.error .assertion, m) else
   if !(t.succ.toList.all fun (u, n) =>
       t.mem n.lo && 0 < n.hi && t.mem n.hi
       && (match t.levelOf? n.lo, t.levelOf? n.hi with
